@@ -16,6 +16,8 @@ EXPECTED = [
     'list-reader/one-line-iff-well-formed',
     'list-reader/malformed-entry-gets-a-diagnostic-about-itself',
     'list-reader/at-most-one-message-per-entry',
+    'list-reader/size-line-ends-with-space-absolute-path',
+    'list-reader/files-line-is-date-path-arrow-payload',
     'rm/removed-iff-original-name-matches',
     'trashcli.empty.delete_according_date.DeleteAccordingDate.ok_to_delete/post/purge-iff-strictly-older',
     'empty/purged-iff-old-enough',
@@ -73,6 +75,8 @@ def malformed_battery(repo):
     env = {'TRASH_DATE': '2020-01-01T00:00:00'}
     for tool, args, stdin in (
             ('trash-list', [], ''),
+            ('trash-list', ['--size'], ''),
+            ('trash-list', ['--files'], ''),
             ('trash-rm', ['good1'], ''),
             ('trash-empty', ['-f', '5000'], ''),
             ('trash-restore', ['--sort', 'date'], '0\n'),
